@@ -219,9 +219,11 @@ def r4(ctx):
         t = bb.term(c.node.args[0]) if c.node.args else None
         ok = isinstance(t, Comp) and not t.conds
         if ok:
-            want = tm.add(tm.add(App("len", (Idx(App("builtins.list", (Sym("data_series"),)), (t.var,)),)), tm.neg(Sym("window_size"))), 1)
-            want2 = tm.add(tm.add(Idx(Attr(Idx(App("builtins.list", (Sym("data_series"),)), (t.var,)), "shape"), (tm.ZERO,)), tm.neg(Sym("window_size"))), 1)
-            ok = t.elt in (want, want2)
+            ok = False
+            for cont in (App("builtins.list", (Sym("data_series"),)), Sym("data_series")):
+                want = tm.add(tm.add(App("len", (Idx(cont, (t.var,)),)), tm.neg(Sym("window_size"))), 1)
+                want2 = tm.add(tm.add(Idx(Attr(Idx(cont, (t.var,)), "shape"), (tm.ZERO,)), tm.neg(Sym("window_size"))), 1)
+                ok = ok or (t.elt in (want, want2) and t.iter == Range(0, tm.length(cont)))
         ctx.check(ok, fe, "the mask is built from the stacked lengths len(series) - W + 1", line=c.node.lineno, role="mask:sizes",
                   expected="[len(s) - window_size + 1 for s in data_series]", found=str(t)[:140])
 
